@@ -6,6 +6,7 @@ mod gen;
 mod props;
 mod props2;
 mod props3;
+mod props4;
 mod dom;
 mod pool;
 mod json;
@@ -92,8 +93,13 @@ fn main() {
                 }
                 i += 1;
             }
-            let o = core::run_impl(&cfg, route, width, args[5].as_bytes());
-            println!("{:#?}", o);
+            if std::env::var("SPEC_LINE").is_ok() {
+                let spec = pool::Spec { id: 0, route, cfg: cfg.clone(), width, widths: vec![], html: args[5].as_bytes().to_vec(), want_dom: true };
+                println!("{}", pool::spec_to_line(&spec));
+            } else {
+                let o = core::run_impl(&cfg, route, width, args[5].as_bytes());
+                println!("{:#?}", o);
+            }
         }
         "glyphs" => {
             props::print_glyphs();
